@@ -7,7 +7,7 @@ From CGV Require Import Base.PyBase Base.PyVal Base.NxGraph Resolve.Bonding Reso
      Resolve.GraphOps Hydro.SquashDefs Hydro.HydroDefs.
 From CGV Require Hydro.Hydrogens Hydro.Squash.
 From CGV Require Import Compose.GraphAdj Compose.CutModel Compose.CutPos Compose.CutTables Compose.CutDisc Compose.CutSkeleton Compose.CutWf
-     Compose.CutHydrogens Compose.ComposeFlat Compose.CutSpecCheck Compose.RebuildWf Compose.CutSorted Compose.CutRunCheck Compose.CutRunSound Compose.SortIdentity Compose.LayeredStep Compose.Levels.
+     Compose.CutHydrogens Compose.ComposeFlat Compose.CutSpecCheck Compose.RebuildWf Compose.CutSorted Compose.CutRunCheck Compose.CutRunSound Compose.SortIdentity Compose.LayeredStep Compose.Levels Compose.PartPerm Compose.Completion Compose.RelabelEdges Compose.CutIso Compose.OrderIndep.
 Import ListNotations.
 Open Scope Z_scope.
 
@@ -83,6 +83,17 @@ Definition C06_compose_levels_all_atom := compose_levels_all_atom.
 Definition C06_run_coarse_levels := run_coarse_levels.
 Definition C06_coarse_step_any := coarse_step_any.
 
+(** the RETURNED all-atom graphs: explicit isomorphism between two listings of the parts (C01: the order in which the base
+    graph lists its nodes; C06: layered against flat) *)
+Definition C01_completion_of := completion_of.
+Definition C01_completed_iso := completed_iso.
+Definition C01_sorted_iso := sorted_iso.
+Definition C01_all_atom_iso := all_atom_iso.
+Definition C01_base_order_independent := base_order_independent.
+Definition C06_layered_flat_returned_iso := layered_flat_returned_iso.
+Definition C12_sort_edge_get := sort_edge_get.
+Definition C01_pperm_wf := pperm_wf.
+
 (** the executable tests of the hypotheses are sound *)
 Theorem C01_wf_cut_test_sound : forall C, wf_cutb C = true -> wf_cut C.
 Proof. exact wf_cutb_sound. Qed.
@@ -107,6 +118,10 @@ Print Assumptions C06_layered_base.
 Print Assumptions C06_compose_flat.
 Print Assumptions C06_coarse_step_returned.
 Print Assumptions C06_compose_levels.
+Print Assumptions C01_base_order_independent.
+Print Assumptions C06_layered_flat_returned_iso.
+Print Assumptions C01_sorted_iso.
+Print Assumptions C12_sort_edge_get.
 Print Assumptions C06_compose_levels_all_atom.
 Print Assumptions C06_compose_flat_returned.
 Print Assumptions C12_sort_in_order.
